@@ -220,7 +220,7 @@ func c06Sim(r *simcore.Run) {
 				r.Count("op-rejected-injected", 1)
 			}
 			if kind == "delete" {
-				r.Fail("delete-rejected", src, "the deletion of %s was rejected: %v", src, err)
+				r.Fail("delete-rejected", "delete", "the deletion of %s was rejected: %v", src, err)
 				continue
 			}
 			if n, first := vDiff(after, before, w.probes); n != 0 {
